@@ -1593,7 +1593,9 @@ class Time(Atomic):
             when = _TaskManager().get_time()
         tup = time.localtime(when)
 
-        self.value = (tup[3], tup[4], tup[5], int((when - int(when)) * 100))
+        # a whole number of hundredths stays that number, whatever the
+        # binary fraction makes of it
+        self.value = (tup[3], tup[4], tup[5], int((when - int(when)) * 100 + 0.0001))
 
         return self
 
